@@ -25,6 +25,9 @@ CLAIMS = {
  "C10": ("typestate/path rules on the memory store (every map lookup passes the expiry predicate; predicate pairing by data dependence), HSETNX write-once rule, must-pass TTL-refresh on every successful Redis return, provenance of EXPIREAT alternatives, constructor/wiring parameter-role agreement, registration in main",
          "Decides that expiry enforcement is on the access path of the assembled service (not in an uncalled sweep), that each timeout is paired with its own base, that creation time is write-once in both stores, that every successful Redis operation refreshes the TTL from created+absolute / now+idle (earlier wins), and that the timeouts are wired to the right constructor parameters from main. Boundary seconds, TTL arithmetic values and real elapsed time are not decided.",
          "go/ssa model; Redis honours EXPIREAT; run.Group calls PreRun of registered units"),
+ "C16": ("consistent-lockset (guarded-by) analysis over own code: interprocedural must-lockset with closure/callback contexts and channel happens-before pseudo-locks, freshness (escape) exemption, goroutine-confinement idiom, lock-order graph, blocking-under-lock and unlock-pairing rules",
+         "The static counterpart of the race detector over all pairs of accesses: for every location class written from a concurrency root on a shared object, every access reachable from any root must hold a common mutex or fall under an enumerated happens-before idiom. Two genuine races remain and are listed as known findings (Reconcile vs GetClientSecret; updateCA vs tls.Config readers). Library-internal races, actual schedules and deadlocks involving library locks are not decided.",
+         "go/ssa model; location classes are type+field (alias-insensitive); run.Group start-up phase is single-threaded; sync.Mutex semantics"),
 }
 
 NOT_YET = "check under construction in this round; see DESIGN.md section 4 for the planned static rules"
